@@ -27,6 +27,8 @@ LEVEL_TEXT = ("proof: for EVERY degree p >= 1 and EVERY elevation count t >= 1 (
 LEVEL_NOTE = ("theorems are about the hand-written Gallina model of helpers.degree_elevation/degree_reduction (reduction as repaired), tied "
               "to the Python code by the sampled correspondence check; the Bernstein specification is stated in Coq (bernstein/bezier), its "
               "link to the B-spline evaluator on a Bezier knot vector is only observed through operations.degree_operations cases")
+# functions of the numerical core this property rests on that are also tied by the translator (tie theorems: Proofs/GenTie*.v, restated in Props/)
+TRANSLATED = ["helpers.degree_reduction"]
 TECHNIQUE = "Coq 8.16: general induction / finite-sum algebra (binomial theorem) for all degrees and counts; field on symbolic polygons per (degree,count) as cross-check; Paramcoq free theorem for the coordinate-wise lift; exact Fraction oracle via power-basis conversion"
 
 
